@@ -41,3 +41,26 @@ Theorem C03_terminal_order : forall cs cs' n,
   (forall f t, declared cs f t <-> declared cs' f t) -> is_terminal (build cs) n = is_terminal (build cs') n.
 Proof. exact terminal_order_independent. Qed.
 Print Assumptions C03_terminal_order.
+
+(* ---- engine level: for every configuration, every history with any faults (quantification as in C16.v) ---- *)
+From WF Require Import model.EngineBase model.Engine model.Monitors proofs.EngineTokens proofs.EngineProps.
+
+(* consecutive persisted run states follow the lifecycle relation (or repeat Running / DataDeleted) *)
+Theorem C03_history_lifecycle : forall c ops, hist_ok ops -> forall p r a, In (TStore (Some p) r a) (trace_of c ops) ->
+  lc (r_state p) (r_state r) = true \/ (r_state r = r_state p /\ (r_state p = RSRunning \/ r_state p = RSDataDeleted)).
+Proof. exact p_lifecycle. Qed.
+Print Assumptions C03_history_lifecycle.
+
+(* a Completed, Cancelled, RequestedDataDeleted or DataDeleted run never returns to Initiated, Running or Paused — whatever
+   API call, callback, expired timeout, redelivered event, fault or crash reaches it *)
+Theorem C03_finished_absorbing : forall c ops, hist_ok ops -> forall p r a, In (TStore (Some p) r a) (trace_of c ops) ->
+  rs_finished (r_state p) = true -> rs_finished (r_state r) = true.
+Proof. exact p_finished_absorbing. Qed.
+Print Assumptions C03_finished_absorbing.
+
+(* Completed is written only at a terminal status, and a write that moves a run to a terminal status writes Completed *)
+Theorem C03_completed_iff_terminal : forall c ops, hist_ok ops -> forall prev r a, In (TStore prev r a) (trace_of c ops) ->
+  (r_state r = RSCompleted -> is_terminal (ec_graph c) (r_status r) = true) /\
+  (forall p, prev = Some p -> r_status r <> r_status p -> is_terminal (ec_graph c) (r_status r) = true -> r_state r = RSCompleted).
+Proof. exact p_completed_terminal. Qed.
+Print Assumptions C03_completed_iff_terminal.
